@@ -305,8 +305,9 @@ def add_common(reg):
         ensures={"T_facts": lambda S, tree, result: terms_facts(S.H, tree)},
         result_type=TList(REF), assumed=True,
         note="terminals(t) == T(t).  The function itself is VERIFIED under C19 against the characterisation F "
-             "(only tokens below t, globally strictly increasing in num, exactly NL(t) of them); naming that unique list "
-             "T(t) is the sorted-list uniqueness lemma (DESIGN 3.9); also re-checked on all trees n<=6 by bounded/c19.py"))
+             "(only tokens below t, globally strictly increasing in num, every token below t occurs, NL(t) of them); that "
+             "such a list is unique - so it is T(t) - is the lemma sorted_enumeration_unique proved in lean/Background.lean "
+             "and checked by Lean under C19; also re-checked on all trees n<=6 by bounded/c19.py"))
     reg.add(Contract(
         target="trees.trees.preorder", prop="C19", args=dict(tree=REF),
         requires=lambda S, tree: WF(S.H, tree) & (tree != None),
